@@ -385,6 +385,45 @@ theorem icmp6SendEcho_invalid (g : Mem) (hm dm smac sip dip : Bytes) (sport dpor
   unfold Gen.Send.ICMP6SendEchoRequest
   rw [if_pos (by simpa using h)]
 
+/-! ### arp_spoofer Request / RequestTo / Probe / AnnounceTo: the table of arp.go (who is asked, in whose name) -/
+
+def bcast : Bytes := [255, 255, 255, 255, 255, 255]
+
+/-- Request: broadcast, sender = the host address, target MAC ff:ff:ff:ff:ff:ff -/
+theorem arpRequestHost_tie (g : Mem) (hostMAC hostIP tip : Bytes) (hport : Nat)
+    (h1 : hostMAC.length = 6) (h4 : hostIP.length = 4) (h6 : tip.length = 4) (hcap : 42 ≤ g.length) :
+    Gen.Send.arp_spoofer_Request g tip hostMAC hostIP hport = sendARP g hostMAC bcast 1 hostMAC hostIP bcast tip := by
+  unfold Gen.Send.arp_spoofer_Request
+  rw [if_neg (by simp [h6])]
+  exact requestRaw_tie g hostMAC bcast hostMAC hostIP bcast tip hport 0 h1 rfl h1 h4 rfl h6 hcap
+
+theorem arpRequestHost_invalid (g : Mem) (hostMAC hostIP tip : Bytes) (hport : Nat) (h : tip.length ≠ 4) :
+    Gen.Send.arp_spoofer_Request g tip hostMAC hostIP hport = .err .invalidIP := by
+  unfold Gen.Send.arp_spoofer_Request
+  rw [if_pos (by simpa using h)]
+
+/-- RequestTo: unicast to `dst` -/
+theorem arpRequestTo_tie (g : Mem) (dst hostMAC hostIP tip : Bytes) (hport : Nat)
+    (h1 : hostMAC.length = 6) (h2 : dst.length = 6) (h4 : hostIP.length = 4) (h6 : tip.length = 4) (hcap : 42 ≤ g.length) :
+    Gen.Send.arp_spoofer_RequestTo g dst tip hostMAC hostIP hport = sendARP g hostMAC dst 1 hostMAC hostIP bcast tip := by
+  unfold Gen.Send.arp_spoofer_RequestTo
+  rw [if_neg (by simp [h6])]
+  exact requestRaw_tie g hostMAC dst hostMAC hostIP bcast tip hport 0 h1 h2 h1 h4 rfl h6 hcap
+
+/-- Probe (RFC 5227): broadcast, sender IP 0.0.0.0, target MAC 00:00:00:00:00:00 -/
+theorem arpProbe_tie (g : Mem) (hostMAC ip : Bytes)
+    (h1 : hostMAC.length = 6) (h6 : ip.length = 4) (hcap : 42 ≤ g.length) :
+    Gen.Send.arp_spoofer_Probe g ip hostMAC = sendARP g hostMAC bcast 1 hostMAC [0, 0, 0, 0] [0, 0, 0, 0, 0, 0] ip := by
+  unfold Gen.Send.arp_spoofer_Probe
+  exact requestRaw_tie g hostMAC bcast hostMAC [0, 0, 0, 0] [0, 0, 0, 0, 0, 0] ip 0 0 h1 rfl h1 rfl rfl h6 hcap
+
+/-- AnnounceTo: sender and target IP both the announced address -/
+theorem arpAnnounceTo_tie (g : Mem) (dst hostMAC ip : Bytes)
+    (h1 : hostMAC.length = 6) (h2 : dst.length = 6) (h6 : ip.length = 4) (hcap : 42 ≤ g.length) :
+    Gen.Send.arp_spoofer_AnnounceTo g dst ip hostMAC = sendARP g hostMAC dst 1 hostMAC ip bcast ip := by
+  unfold Gen.Send.arp_spoofer_AnnounceTo
+  exact requestRaw_tie g hostMAC dst hostMAC ip bcast ip 0 0 h1 h2 h1 h6 rfl h6 hcap
+
 /-! ### the lists emitted by the translator are the reviewed ones -/
 
 theorem translated_accounted : Gen.Send.sendersTranslated =
@@ -399,19 +438,19 @@ theorem ignored_accounted : Gen.Send.sendersIgnored = ["defer EtherBufferPool.Pu
 
 theorem wrappers_accounted : Gen.Send.wrappersTranslated =
     ["ICMP4SendEchoRequest", "ICMP6SendEchoRequest", "ICMP6SendNeighborAdvertisement", "ICMP6SendNeighbourSolicitation",
-     "arp_spoofer_Reply"] := by decide
+     "arp_spoofer_AnnounceTo", "arp_spoofer_Probe", "arp_spoofer_Reply", "arp_spoofer_Request", "arp_spoofer_RequestTo"] := by decide
 
 /-- functions ending in a send-path call that are not translated: the RA / RS senders (their messages are built by the
-    allocating ndp marshal code), the ARP request builders (composite `Addr` literals) and the NBNS / mDNS query builders (`string` names, dnsmessage) -/
+    allocating ndp marshal code), and the NBNS / mDNS query builders (`string` names, dnsmessage) -/
 theorem wrappers_untranslated_accounted : Gen.Send.wrappersUntranslated.map (·.1) =
-    ["ICMP6SendRouterAdvertisement", "ICMP6SendRouterSolicitation", "arp_spoofer_Probe", "arp_spoofer_Request",
-     "arp_spoofer_RequestTo", "dns_naming_SendNBNSNodeStatus", "dns_naming_SendNBNSQuery",
+    ["ICMP6SendRouterAdvertisement", "ICMP6SendRouterSolicitation", "dns_naming_SendNBNSNodeStatus", "dns_naming_SendNBNSQuery",
      "dns_naming_SendSleepProxyResponse", "dns_naming_sendMDNSQuery"] := by decide
 
 theorem dict_accounted : Gen.Send.sendersDict =
     ["Checksum = checksum", "Ether(make([]byte, N)) = a zeroed buffer of N bytes (the argument g is not used)",
      "Ether.Payload = etherPayloadSl (nil ↦ nilSl)",
-     "netip.Addr.IsLinkLocalUnicast || IsLinkLocalMulticast = isLLUorLLM"] := by decide
+     "netip.Addr.IsLinkLocalUnicast || IsLinkLocalMulticast = isLLUorLLM",
+     "package-level address variables of package packet = their initialisers"] := by decide
 
 theorem setChecksum_translated : Gen.Send.setChecksumTranslated = true := by decide
 
